@@ -60,6 +60,28 @@ def _generate(probe_files):
     return out
 
 
+def generate_components(probe_files, runtime_rlib, opt_level='0'):
+    """run the compiler in COMPONENT mode on the probe files; returns ({basename: emitted .rs}, component dir)"""
+    exe = build_compiler()
+    wd = os.path.join(driver.workdir(), 'gen_probes_component')
+    ind, outd, cod = os.path.join(wd, 'in'), os.path.join(wd, 'out'), os.path.join(wd, 'components')
+    for d in (ind, outd, cod):
+        os.makedirs(d, exist_ok=True)
+    for f in probe_files:
+        with open(os.path.join(ind, os.path.basename(f)), 'w') as g:
+            g.write(open(f).read())
+    p = subprocess.run([exe, ind, outd, '--build-type', 'component', '--component-out-dir', cod, '--runtime-rlib-path', runtime_rlib, '--opt-level', opt_level],
+                       stdout=subprocess.PIPE, stderr=subprocess.PIPE, text=True)
+    if p.returncode != 0:
+        raise RuntimeError('the eqlog compiler failed on the probe theories (component build):\n' + (p.stderr or p.stdout)[-3000:])
+    out = {}
+    for root, _, files in os.walk(outd):
+        for fn in files:
+            if fn.endswith('.rs'):
+                out[fn] = os.path.join(root, fn)
+    return out, cod
+
+
 class Copy:
     def __init__(self, field, rel, age, eqs, order, tree_arity):
         self.field, self.rel, self.age, self.eqs, self.order, self.tree_arity = field, rel, age, eqs, order, tree_arity
